@@ -85,6 +85,7 @@ class CoreStub:
         self.rbeats = [[] for _ in ports]     # (cycle, addr, data, taken)
         self.wbeats = [[] for _ in ports]     # (cycle, addr, data, we, valid)
         self.pending_writes = {}  # addr -> set of seq numbers of accepted-but-unapplied writes
+        self.pending_reads = {}   # addr -> accepted-but-unanswered read entries
         self.max_outstanding = max_outstanding
         self.max_out_seen = 0
         self.lat_mode = None
@@ -129,11 +130,17 @@ class CoreStub:
                     self.accepted[i].append((cyc, cwe, caddr))
                     if cwe:
                         self.pending_writes.setdefault(caddr, set()).add(self.seq)
+                    else:
+                        self.pending_reads.setdefault(caddr, []).append(e)
                     self.max_out_seen = max(self.max_out_seen, self.outstanding())
                 # ---- sample: data phases that were on the wire in this cycle
                 e = wpulse[i]
                 if e is not None:
                     if wv:
+                        # reads accepted *before* this write (on any port) must not observe it: capture their value now
+                        for pr in self.pending_reads.get(e["addr"], ()):
+                            if pr["seq"] < e["seq"] and "data" not in pr:
+                                pr["data"] = self.store.read(e["addr"])
                         self.store.write(e["addr"], wd, wwe)
                         self.store.write_log.append((e["seq"], i, e["addr"], wd, wwe, cyc))
                         self.wbeats[i].append((cyc, e["addr"], wd, wwe, 1))
@@ -168,7 +175,9 @@ class CoreStub:
                             s = self.pending_writes.get(e["addr"])
                             if not s or min(s) > e["seq"]:
                                 q.popleft()
-                                e["data"] = self.store.read(e["addr"])
+                                if "data" not in e:
+                                    e["data"] = self.store.read(e["addr"])
+                                self.pending_reads[e["addr"]].remove(e)
                                 self.store.read_log.append((e["seq"], i, e["addr"], e["data"], cyc + 1))
                                 rpulse[i] = e
                                 stmts += [p.rdata.valid.eq(1), p.rdata.data.eq(e["data"])]
